@@ -236,6 +236,8 @@ def gen_tree(r, max_depth=3, allow_bytes=False, nfiles=None):
             path, written = d + '/' + name, name
         if path not in used_paths and _would_be_ambiguous(nodes, inc_dirs, used_paths, pdir, written, path):
             continue
+        if where != 'inc' and r.random() < 0.12 and not written.startswith('./'):
+            written = './' + written           # './x', './sub/x', './../x': the same file, spelled from the current directory
         if path in used_paths:
             if r.random() < 0.3 and path != main and not _is_ancestor(nodes, parent, path) \
                     and not _would_be_ambiguous(nodes, inc_dirs, used_paths - {path}, pdir, written, path):
@@ -308,8 +310,10 @@ def gen_tree(r, max_depth=3, allow_bytes=False, nfiles=None):
                 line = 'include "%s" # %s' % (w, posixpath.basename(w))
             elif style < 0.8:
                 line = "include '%s'" % w
-            elif style < 0.9:
+            elif style < 0.86:
                 line = 'include %s  # pulls in %s' % (w, posixpath.basename(w))
+            elif style < 0.9:
+                line = 'include %s  # replaces "%s" (was \'old_%s\')' % (w, r.choice(names), posixpath.basename(w))
             else:
                 line = 'INCLUDE %s' % w
             pos = r.choice((len(head), len(body), r.randint(len(head), len(body))))
